@@ -281,6 +281,58 @@ def part_badbyte(sh, res):
     res.sample({'sample': s, 'fault': 'byte p replaced by 0xFF / 0x80 / truncated, for every p'})
 
 
+def part_stdin_env(sh, res):
+    """the table arrives on the process's own stdin (an io.TextIOWrapper whose codec and error handler come from the environment) in child interpreters under several
+    environments: with encoding='utf-8' valid input is read exactly (BOM dropped with its warning) and an invalid byte is an IO-handling error, whatever the locale /
+    PYTHONIOENCODING / UTF-8 mode says"""
+    import json, subprocess
+    code = ("import sys, json; sys.path.insert(0, %r); from vf import tree; rc = tree.csvmod(); eng = tree.engine()\n"
+            "try:\n    it = rc.CSVRecordIterator(sys.stdin, 'utf-8', ',', 'simple'); recs = it.get_all_records(); out = {'records': recs, 'warnings': it.get_warnings()}\n"
+            "except eng.RbqlIOHandlingError as e:\n    out = {'error': 'io'}\n"
+            "except Exception as e:\n    out = {'error': 'EXC:' + type(e).__name__}\n"
+            "sys.stdout.buffer.write(json.dumps(out).encode('ascii'))" % core.VERIF)
+    valid = ['\u00e9,\u20ac\nx,y\n', '\ufeffa,b\n\u0436\n', 'plain,ascii\n']
+    inputs = [(v.encode('utf-8'), v) for v in valid]
+    good = valid[0].encode('utf-8')
+    for pos in range(len(good)):
+        for rep in (b'\xff', b'\x80'):
+            data = good[:pos] + rep + good[pos + 1:]
+            try:
+                data.decode('utf-8')
+            except UnicodeDecodeError:
+                inputs.append((data, None))
+    inputs.append((good[:-4], None) if False else (good[:1], None))       # truncated inside the first character
+    for envo, unset in sh['envs']:
+        env = dict(os.environ)
+        for k in unset:
+            env.pop(k, None)
+        env.update(envo)
+        env['PYTHONWARNINGS'] = 'ignore'
+        for data, text in inputs:
+            p = subprocess.run([sys.executable, '-c', code], input=data, stdout=subprocess.PIPE, stderr=subprocess.PIPE, env=env, timeout=120)
+            res.evaluations += 1
+            res.traces += 1
+            res.states += 1
+            case = {'kind': 'stdin-under-environment', 'hex': data.hex(), 'process_environment': envo}
+            try:
+                got = json.loads(p.stdout.decode('ascii')) if p.returncode == 0 else {'error': 'child exit %d: %s' % (p.returncode, p.stderr.decode('utf-8', 'replace')[-200:])}
+            except Exception:
+                got = {'error': 'unreadable child output %r' % p.stdout[:80]}
+            if text is None:
+                res.nontrivial += 1
+                res.feat('invalid_inputs_on_stdin_under_environment')
+                if got.get('error') != 'io':
+                    res.violation('invalid-utf8-not-an-io-error', case, 'RbqlIOHandlingError', got)
+            else:
+                r = refcsv.ref_read(text, ',', 'simple', False, None, '\ufeff')
+                bom_warn = any('BOM' in w for w in got.get('warnings', []))
+                if got.get('error') or got.get('records') != r.records or bom_warn != r.bom:
+                    res.violation('valid-input-misread', case, {'records': r.records, 'bom_warning': r.bom}, got)
+                else:
+                    res.feat('valid_inputs_on_stdin_under_environment')
+    res.sample({'stdin_environments': [e for e, u in sh['envs']]})
+
+
 def fd_snapshot():
     out = {}
     for name in os.listdir('/proc/self/fd'):
@@ -428,7 +480,7 @@ def part_protocol(sh, res):
 
 def run_shard(sh):
     res = core.Result()
-    {'pipe': part_pipe, 'badbyte': part_badbyte, 'fd': part_fd, 'protocol': part_protocol}[sh['part']](sh, res)
+    {'pipe': part_pipe, 'badbyte': part_badbyte, 'fd': part_fd, 'protocol': part_protocol, 'stdin_env': part_stdin_env}[sh['part']](sh, res)
     return res
 
 
@@ -451,13 +503,16 @@ def main(tier, seed):
     for s in SAMPLES:
         shards.append({'part': 'badbyte', 'sample': s, 'tier': tier})
     shards.append({'part': 'fd'})
+    for h in [({'LC_ALL': 'C', 'PYTHONUTF8': '0', 'PYTHONCOERCECLOCALE': '0'}, ('LANG', 'LC_CTYPE', 'PYTHONIOENCODING')), ({'PYTHONIOENCODING': 'latin-1', 'LC_ALL': 'C.UTF-8'}, ('LANG',)),
+              ({'PYTHONIOENCODING': 'utf-8:surrogateescape'}, ()), ({'PYTHONIOENCODING': 'utf-8:replace'}, ()), ({'PYTHONUTF8': '1'}, ('PYTHONIOENCODING',)), ({'LC_ALL': 'C.UTF-8'}, ('LANG', 'PYTHONIOENCODING', 'PYTHONUTF8'))]:
+        shards.append({'part': 'stdin_env', 'envs': [h]})
     res = core.run_shards('vf.checks.c15', shards)
     return core.finish(PID, tier, seed, res, t0,
         rule='single-fault exploration: the fault index ranges over every stream write (text and raw) / every writer call / every byte position of every scenario; 18 query shapes x prefixes 0..9 (and two infixes) of a 9-row table; '
              'states = fault points, transitions = environment calls answered; non-trivial = the fault actually struck before the run ended',
         assumptions=['a broken pipe stays broken (no recovery)', 'validity of a mutated byte string is decided by CPython\'s strict utf-8 codec', 'descriptors are compared through /proc/self/fd after gc.collect()'],
         extra={'shapes': [s[0] for s in shapes()]},
-        min_features={'invalid_inputs_through_own_text_stream': 3000, 'faults_struck': 400, 'pipe_fault_kind_bare': 6, 'pipe_fault_kind_eshutdown': 6, 'pipe_fault_kind_message_only': 6, 'invalid_inputs': 5000, 'fd_error_paths': 40, 'writer_refusals': 300})
+        min_features={'invalid_inputs_on_stdin_under_environment': 60, 'valid_inputs_on_stdin_under_environment': 12, 'invalid_inputs_through_own_text_stream': 3000, 'faults_struck': 400, 'pipe_fault_kind_bare': 6, 'pipe_fault_kind_eshutdown': 6, 'pipe_fault_kind_message_only': 6, 'invalid_inputs': 5000, 'fd_error_paths': 40, 'writer_refusals': 300})
 
 
 def replay(rep):
